@@ -16,7 +16,7 @@ MANIFEST = {
             "phase-two request sequences, comparing every event with the model evaluated in Coq, plus a direct oracle.",
     "note": "Trusted: Coq kernel + vm_compute, no axioms; harness/tccrun and this driver's case printer; gomonkey patches of "
             "SendSyncRequest / SendAsyncResponse. JSON is modelled at tree level (text syntax is exercised only through the "
-            "real encoding/json in the tie). Malformed application data panics: known finding.",
+            "real encoding/json in the tie).",
     "technique": "Coq proof (structural induction over a JSON/Go value model, event model) + differential correspondence (vm_compute) + direct oracle on the real code",
 }
 PROP_FILE = "Props/P_C05.v"
